@@ -25,6 +25,11 @@ mod h {
         l
     }
 
+    /// element-wise (a slice == would go through memcmp, which needs 17 unwindings)
+    fn arr_eq(a: &[u32; CAP], b: &[u32; CAP]) -> bool {
+        a[0] == b[0] && a[1] == b[1] && a[2] == b[2] && a[3] == b[3]
+    }
+
     fn model_eq(n1: usize, v1: &[u32; CAP], n2: usize, v2: &[u32; CAP]) -> bool {
         if n1 != n2 {
             return false;
@@ -110,10 +115,10 @@ mod h {
         }
         drop(g);
         let ga = a.0.lock().unwrap();
-        assert!(ga.len == n1 && ga.store == v1, "OBL:C15.concat.left_operand_unchanged");
+        assert!(ga.len == n1 && arr_eq(&ga.store, &v1), "OBL:C15.concat.left_operand_unchanged");
         drop(ga);
         let gb = b.0.lock().unwrap();
-        assert!(gb.len == n2 && gb.store == v2, "OBL:C15.concat.other_list_unchanged");
+        assert!(gb.len == n2 && arr_eq(&gb.store, &v2), "OBL:C15.concat.other_list_unchanged");
         drop(gb);
         assert!(!Arc::ptr_eq(&c.0, &a.0) && !Arc::ptr_eq(&c.0, &b.0), "OBL:C15.concat.result_is_a_new_list");
         kani::cover!(aliased && n1 == 2, "COV:C15.concat.self_concat_reached");
